@@ -13,7 +13,7 @@ mk() { # id name file sed-expr
   (cd $tmp && diff -u a/$file b/$file) > /verif/fixtures/$id-$name/patch.diff
   rm -rf $tmp
 }
-rm -rf /verif/fixtures/C*
+# (hand-written fixtures are kept: nothing is deleted here)
 mk C16 named-not-lowered args.go 's/a\.named\[strings\.ToLower\(n\)\] = rv/a.named[n] = rv/'
 mk C16 call-options-before-defaults func.go 's/copy\(optsCopy, f\.callOpts\)/copy(optsCopy, opts)/; s/copy\(optsCopy\[len\(f\.callOpts\):\], opts\)/copy(optsCopy[len(opts):], f.callOpts)/'
 mk C04 converter-error-wrapped call.go 's/if err := result\.Err\(\); err != nil \{/if err := result.Err(); err != nil {\n\t\t\t\t\terr = fmt.Errorf("converter failed: %w", err)/'
@@ -49,3 +49,5 @@ mk C12 option-writes-captured args.go 's/^\tname := strings\.ToLower\(n\)$/\tnam
 mk C05 chaining-rule-removed call.go '/We need to allow any typed argument to depend on a typed output/,/^\t}$/{s/g\.AddEdgeWeighted\(v, g\.Add\(&typedOutputVertex\{/_ = (\&typedOutputVertex{/; s/^\t\t\}\), weightTyped\)$/\t\t})/}'
 ls /verif/fixtures | wc -l
 # fixtures/C15-fromsignature-empty-guard-removed and C06-fromsignature-empty-guard-removed are the reverse of fix 25d796e (git diff -R); C08-filter-gate-removed is hand-written: not regenerated here
+mk C06 redefine-len-guard-removed redefine.go 's/if len\(out\) == 0 \|\| out\[len\(out\)-1\] != errType/if out[len(out)-1] != errType/'
+mk C06 err-len-guard-weakened result.go 's/if len\(r\.out\) > 0 \{/if len(r.out) >= 0 {/'
